@@ -5,13 +5,30 @@ from lib import common as C, scen, edprog
 from checks.C10 import needs_url_encoding
 
 
+def resolved(name):
+    """the resolved spelling of a target name (what Model/TName.v clean_name computes; C08 ties it to the code)"""
+    out = []
+    for seg in name.split("/"):
+        if seg in ("", "."):
+            continue
+        if seg == "..":
+            if out:
+                out.pop()
+            continue
+        out.append(seg)
+    return "/".join(out)
+
+
 def build(rng, i):
     """a repository built by the concretiser (delegations, odd role and target names), its target files,
     then: load, cache (subset / all, with / without root chain), load the copy, read every cached target"""
     s = scen.Scen()
     cs = rng.random() < 0.5
     role_a = rng.choice(["A", "rôle a", "x/../y", "per%2Fcent", "dots..json"])
-    names_top = rng.sample(["file.txt", "dir/sub/f", "with space.bin", "ünï.dat", "z.tar.gz", "a.b.c"], rng.randint(1, 4))
+    names_top = rng.sample(["file.txt", "dir/sub/f", "with space.bin", "ünï.dat", "z.tar.gz", "a.b.c",
+                            "x/../y.dat", "sub/../../escape.txt", "p/./q.txt"], rng.randint(1, 4))
+    if i % 4 == 0 and "sub/../../escape.txt" not in names_top:
+        names_top.append("sub/../../escape.txt")      # a name that needs resolution in every fourth case
     names_a = ["a/" + n for n in rng.sample(["one", "two/three", "four five"], rng.randint(0, 2))]
     tfiles, contents = [], {}
     def entries(names, tag):
@@ -21,7 +38,7 @@ def build(rng, i):
             contents[n] = c
             out.append({"name": n, "content": c})
             hx = hashlib.sha256(c.encode()).hexdigest()
-            tfiles.append({"name": (hx + "." if cs else "") + n, "content": c})
+            tfiles.append({"name": (hx + "." if cs else "") + resolved(n), "content": c})
         return out
     chain = rng.choice([1, 1, 2, 3])
     roots = [s.root(version=v, cs=cs, sigs=scen.valid([0])) for v in range(1, chain + 1)]
@@ -89,8 +106,8 @@ def run(chk):
         requested = info["names"] if info["subset"] is None else info["subset"]
         wanted = {n: info["contents"][n] for n in requested}
         corrupted_hit = info["corrupted"] is not None and any(
-            info["corrupted"].endswith(n) and info["contents"][n] + "-corrupted" != info["contents"][n] for n in requested
-            if (hashlib.sha256(info["contents"][n].encode()).hexdigest() + "." + n if info["cs"] else n) == info["corrupted"])
+            (hashlib.sha256(info["contents"][n].encode()).hexdigest() + "." + resolved(n) if info["cs"] else resolved(n))
+            == info["corrupted"] for n in requested)
         if cache_res[0] != 0:
             if not corrupted_hit:
                 chk.violation("caching a loadable repository failed: %s" % cache_res, full,
@@ -100,8 +117,9 @@ def run(chk):
             if f.startswith("<OUTSIDE>/targets/"):
                 rel = f[len("<OUTSIDE>/targets/"):]
                 name = rel[65:] if info["cs"] else rel
-                if name in info["contents"] and b != info["contents"][name].encode():
-                    chk.violation("a target that fails verification was stored in the cache: %s" % rel, full)
+                for raw, c in info["contents"].items():
+                    if resolved(raw) == name and b != c.encode():
+                        chk.violation("a target that fails verification was stored in the cache: %s" % rel, full)
         if cache_res[0] != 0:
             continue
         if info["root_chain"]:
